@@ -76,7 +76,7 @@ class TLCResult(object):
 
 _RE_STATS = re.compile(r"(\d+) states generated, (\d+) distinct states found")
 _RE_DEPTH = re.compile(r"The depth of the complete state graph search is (\d+)")
-_RE_COV = re.compile(r"^<([A-Za-z_][A-Za-z0-9_]*) line \d+, col \d+ to line \d+, col \d+ of module ([A-Za-z0-9_]+)>: (\d+):(\d+)", re.M)
+_RE_COV = re.compile(r"^<([A-Za-z_][A-Za-z0-9_]*) line \d+, col \d+ to line \d+, col \d+ of module ([A-Za-z0-9_]+)(?: \([\d ]+\))?>: (\d+):(\d+)", re.M)
 _RE_INV = re.compile(r"Error: Invariant ([A-Za-z0-9_]+) is violated")
 _RE_ERR = re.compile(r"^Error: (.*)$", re.M)
 
